@@ -96,6 +96,7 @@ func main() {
 		for s := 0; s < cfg.N(2, 6); s++ {
 			add(childSpec{Mode: "revokeby", Shard: s, N: cfg.N(3, 15), LogLevel: levels[(s+2)%len(levels)]}, cfg.BinPlain, 10*time.Minute)
 			add(childSpec{Mode: "burst", Shard: s, N: cfg.N(30, 150), LogLevel: levels[(s+4)%len(levels)]}, cfg.BinPlain, 10*time.Minute)
+			add(childSpec{Mode: "overlap", Shard: s, N: cfg.N(25, 120), LogLevel: levels[(s+5)%len(levels)]}, cfg.BinPlain, 10*time.Minute)
 		}
 		for s := 0; s < cfg.N(2, 6); s++ {
 			add(childSpec{Mode: "badentry", Shard: s, N: cfg.N(3, 12), LogLevel: levels[(s+1)%len(levels)]}, cfg.BinPlain, 10*time.Minute)
@@ -218,6 +219,8 @@ func finish(cfg vlib.Cfg, rep *vlib.Report) {
 	rep.Floor(rep.Counter("sessclean_reset_checks") >= 500 && rep.Counter("cleaner_passes") >= 100, "sessclean_reset_checks=%d cleaner_passes=%d", rep.Counter("sessclean_reset_checks"), rep.Counter("cleaner_passes"))
 	rep.Floor(rep.Counter("revokeby_cells") >= 1000 && rep.Counter("key_resets_to_default") >= 10 && rep.Counter("dev_resets_to_default") >= 5, "revokeby_cells=%d key_resets=%d dev_resets=%d",
 		rep.Counter("revokeby_cells"), rep.Counter("key_resets_to_default"), rep.Counter("dev_resets_to_default"))
+	rep.Floor(rep.Counter("overlap_rounds") >= 30, "overlap_rounds=%d", rep.Counter("overlap_rounds"))
+	rep.Floor(rep.Counter("burst_parked_in_getter") >= 10, "burst_parked_in_getter=%d", rep.Counter("burst_parked_in_getter"))
 	rep.Floor(rep.Counter("burst_rounds") >= 30, "burst_rounds=%d", rep.Counter("burst_rounds"))
 	rep.Floor(rep.Counter("session_resets_with_authorization") >= 100, "session_resets_with_authorization=%d", rep.Counter("session_resets_with_authorization"))
 	rep.Floor(rep.Counter("badentry_cells") >= 1000, "badentry_cells=%d", rep.Counter("badentry_cells"))
@@ -302,6 +305,8 @@ func childMain(dir string) {
 		rerr = runRevokeBy(w, j, cs)
 	case "burst":
 		rerr = runBurst(w, j, cs)
+	case "overlap":
+		rerr = runOverlap(w, j, cs)
 	case "expiredtwice":
 		rerr = runExpiredTwice(w, j, cs)
 	case "poison":
